@@ -50,8 +50,8 @@ long long c_coord2cell(long long nrows, long long ncols,
 
     for(i=0; i<nval; i++)
     {
-        nx = (long long)((xycoords[2*i]-xll)/csz);
-        ny = nrows-1-(long long)((xycoords[2*i+1]-yll)/csz);
+        nx = (long long)floor((xycoords[2*i]-xll)/csz);
+        ny = nrows-1-(long long)floor((xycoords[2*i+1]-yll)/csz);
 
         if(nx<0 || nx>=ncols || ny<0 || ny>=nrows)
             idxcell[i] = -1;
